@@ -38,6 +38,12 @@ pub struct Cfg10 {
     /// index capacity shared by all tenants; small values make the index fill up (tombstone compaction, refusals)
     #[serde(default = "default_capacity")]
     pub capacity: usize,
+    /// this tenant has a second enabled API key (key rotation); calls with it are written Cred::Tenant(4 + t)
+    #[serde(default)]
+    pub two_keys: Option<usize>,
+    /// the last tenant is added to the key file only at the first restart
+    #[serde(default)]
+    pub late_tenant: bool,
 }
 fn default_capacity() -> usize {
     400
@@ -220,7 +226,17 @@ pub fn gen_plan(seed: u64, run: u64, tier: &str) -> Plan {
         persist,
         max_vectors: 1000,
         capacity: *rng.pick(&[400usize, 400, 10, 16]),
+        two_keys: None,
+        late_tenant: false,
     };
+    let mut cfg = cfg;
+    if rng.chance(1, 3) {
+        cfg.two_keys = Some(rng.below(cfg.n_tenants as u64) as usize);
+    }
+    if cfg.persist && rng.chance(1, 2) {
+        cfg.late_tenant = true;
+    }
+    let cfg = cfg;
     let n = if tier == "thorough" { rng.range(10, 60) } else { rng.range(6, 32) } as usize;
     let mut steps = Vec::new();
     let mut w = 0u64;
@@ -249,7 +265,17 @@ pub fn gen_plan(seed: u64, run: u64, tier: &str) -> Plan {
             4 | 5 => Cred::Bearer(rng.below(cfg.n_tenants as u64) as usize),
             _ => Cred::Tenant(rng.below(cfg.n_tenants as u64) as usize),
         };
+        // a quarter of the calls of a tenant with two keys use the second one
+        let cred = match (&cred, cfg.two_keys) {
+            (Cred::Tenant(t), Some(k)) if *t == k && rng.chance(1, 4) => Cred::Tenant(4 + *t),
+            _ => cred,
+        };
         steps.push(Step::Rpc(cred, gen_rpc(&mut rng, &cfg, &mut w, &mut earlier)));
+    }
+    if cfg.late_tenant && !steps.iter().take(steps.len() / 2 + 1).any(|s| matches!(s, Step::Restart)) {
+        // the late tenant needs a restart to be added at all: place one in the first half
+        let at = rng.below(steps.len() as u64 / 2 + 1) as usize;
+        steps.insert(at, Step::Restart);
     }
     let env_seed = rng.next();
     Plan { cfg, steps, env_seed }
@@ -257,15 +283,25 @@ pub fn gen_plan(seed: u64, run: u64, tier: &str) -> Plan {
 
 // ------------------------------------------------------------------------------------------------ execution
 
-pub fn server_cfg(c: &Cfg10, data_dir: Option<String>, aux_dir: String) -> (ServerCfg, Vec<String>) {
+pub fn server_cfg(c: &Cfg10, data_dir: Option<String>, aux_dir: String, late_enabled: bool) -> (ServerCfg, Vec<String>) {
     let mut tenants = Vec::new();
     let mut keys = Vec::new();
     for (i, t) in TENANTS.iter().enumerate() {
-        let configured = i < c.n_tenants || i == 3;
+        let late = c.late_tenant && i + 1 == c.n_tenants;
+        let configured = (i < c.n_tenants && (!late || late_enabled)) || i == 3;
         let key = api_key(t, i as u64);
         keys.push(key.clone());
         if configured {
             tenants.push(TenantSpec { id: t.to_string(), key, max_vectors: c.max_vectors, max_qps: 0, is_admin: false, enabled: i != 3 });
+        }
+    }
+    // second keys (index 4 + tenant): configured only for the tenant that rotated its key
+    for (i, t) in TENANTS.iter().enumerate() {
+        let key = api_key(t, 100 + i as u64);
+        keys.push(key.clone());
+        let late = c.late_tenant && i + 1 == c.n_tenants;
+        if c.two_keys == Some(i) && i < c.n_tenants && (!late || late_enabled) {
+            tenants.push(TenantSpec { id: t.to_string(), key, max_vectors: c.max_vectors, max_qps: 0, is_admin: false, enabled: true });
         }
     }
     (
@@ -310,11 +346,36 @@ pub struct World {
     pub quota: Vec<Vec<Option<usize>>>,
 }
 
+/// which tenant a credential names (second keys are written 4 + tenant)
 fn cred_tenant(c: &Cred) -> Option<usize> {
     match c {
-        Cred::Tenant(t) | Cred::Bearer(t) => Some(*t),
+        Cred::Tenant(t) | Cred::Bearer(t) if *t < 8 => Some(*t % 4),
         _ => None,
     }
+}
+
+/// the tenant a credential authenticates as under this configuration, if it is a valid enabled key at that moment
+fn valid_tenant(c: &Cfg10, cred: &Cred, late_enabled: bool) -> Option<usize> {
+    let raw = match cred {
+        Cred::Tenant(t) | Cred::Bearer(t) => *t,
+        _ => return None,
+    };
+    let t = raw % 4;
+    if raw >= 8 || t >= c.n_tenants {
+        return None;
+    }
+    if raw >= 4 && c.two_keys != Some(t) {
+        return None;
+    }
+    if c.late_tenant && t + 1 == c.n_tenants && !late_enabled {
+        return None;
+    }
+    Some(t)
+}
+
+/// has the first restart (which adds the late tenant to the key file) happened before step `i`?
+fn late_enabled_before(plan: &Plan, i: usize) -> bool {
+    plan.steps.iter().take(i).any(|s| matches!(s, Step::Restart))
 }
 
 /// Runs on the calling thread (must be a fresh thread after reset_env).
@@ -324,7 +385,8 @@ pub fn run_world(plan: &Plan, only: Option<usize>, tag: u64, want_truth: bool) -
     let aux = format!("{}/aux", dir);
     let _ = std::fs::create_dir_all(&data);
     let _ = std::fs::create_dir_all(&aux);
-    let (scfg, keys) = server_cfg(&plan.cfg, if plan.cfg.persist { Some(data.clone()) } else { None }, aux);
+    let mut late_enabled = false;
+    let (mut scfg, keys) = server_cfg(&plan.cfg, if plan.cfg.persist { Some(data.clone()) } else { None }, aux.clone(), late_enabled);
     let rt = rpc::paused_runtime();
     let mut w = World { obs: Vec::new(), truth: Vec::new(), tenant_index: vec![], quota: vec![] };
     let mut h = match Harness::start(&scfg) {
@@ -334,8 +396,22 @@ pub fn run_world(plan: &Plan, only: Option<usize>, tag: u64, want_truth: bool) -
             None
         }
     };
+    let index_of = |h: &Harness, late_enabled: bool| -> Vec<Option<u32>> {
+        TENANTS
+            .iter()
+            .enumerate()
+            .map(|(i, t)| {
+                let late = plan.cfg.late_tenant && i + 1 == plan.cfg.n_tenants;
+                if i < plan.cfg.n_tenants && (!late || late_enabled) {
+                    h.tenant_index(t)
+                } else {
+                    None
+                }
+            })
+            .collect()
+    };
     if let Some(h) = &h {
-        w.tenant_index = TENANTS.iter().enumerate().map(|(i, t)| if i < plan.cfg.n_tenants { h.tenant_index(t) } else { None }).collect();
+        w.tenant_index = index_of(h, late_enabled);
     }
     for st in &plan.steps {
         let Some(hh) = h.as_ref() else {
@@ -370,8 +446,13 @@ pub fn run_world(plan: &Plan, only: Option<usize>, tag: u64, want_truth: bool) -
             }
             Step::Restart => {
                 h = None; // shut the old server down first
+                if plan.cfg.late_tenant && !late_enabled {
+                    late_enabled = true;
+                    scfg = server_cfg(&plan.cfg, if plan.cfg.persist { Some(data.clone()) } else { None }, aux.clone(), true).0;
+                }
                 match Harness::start(&scfg) {
                     Ok(n) => {
+                        w.tenant_index = index_of(&n, late_enabled);
                         h = Some(n);
                         Obs::Restarted(Ok(()))
                     }
@@ -551,7 +632,7 @@ fn judge_inner2(plan: &Plan, w: &World, snaps: &mut BTreeMap<usize, TModel>, cap
             (Step::Restart, Obs::Restarted(Err(e))) => return Some(prob("restart_failed", i, format!("server did not restart: {}", e), &[])),
             (Step::Restart, _) => {}
             (Step::Usage(cred, all), Obs::Usage(status, body)) => {
-                let t = cred_tenant(cred).filter(|t| *t < c.n_tenants);
+                let t = valid_tenant(c, cred, late_enabled_before(plan, i));
                 match t {
                     None => {
                         if *status != 401 {
@@ -578,7 +659,7 @@ fn judge_inner2(plan: &Plan, w: &World, snaps: &mut BTreeMap<usize, TModel>, cap
                 }
             }
             (Step::Rpc(cred, r), Obs::Resp(resp)) => {
-                let t = cred_tenant(cred).filter(|t| *t < c.n_tenants);
+                let t = valid_tenant(c, cred, late_enabled_before(plan, i));
                 let Some(t) = t else {
                     // UNAUTHENTICATED (or PERMISSION_DENIED for a disabled tenant), never a response message
                     if !(resp.code == 16 || resp.code == 7) || resp.body != Body::None {
@@ -817,7 +898,7 @@ fn truth_check(plan: &Plan, w: &World, models: &[TModel], i: usize) -> Option<Pr
     let truth = w.truth.get(i)?.as_ref()?;
     let mut expected: BTreeMap<u64, Meta> = BTreeMap::new();
     for (t, m) in models.iter().enumerate() {
-        let idx = w.tenant_index.get(t).cloned().flatten()?;
+        let Some(idx) = w.tenant_index.get(t).cloned().flatten() else { continue };
         for (id, d) in m {
             expected.insert(((idx as u64) << 32) | id, full_meta(t, idx, d));
         }
@@ -1042,7 +1123,7 @@ pub fn execute(plan: &Plan) -> Exec {
             if let (Step::Rpc(cred, r), Obs::Resp(resp)) = (st, o) {
                 *ex.per_rpc.entry(r.kind().to_string()).or_insert(0) += 1;
                 let mut pr = |k: &str| *ex.probes.entry(k.to_string()).or_insert(0) += 1;
-                if cred_tenant(cred).filter(|t| *t < p.cfg.n_tenants).is_none() {
+                if valid_tenant(&p.cfg, cred, true).is_none() {
                     pr("call_without_valid_enabled_key");
                 }
                 match (&resp.body, r) {
@@ -1171,6 +1252,12 @@ pub fn run_batch(seed: u64, start: u64, count: u64, tier: &str, budget_ms: u64, 
         }
         if plan.cfg.capacity < 400 {
             sum.probe("small_index_capacity_runs", 1);
+        }
+        if plan.cfg.two_keys.is_some() {
+            sum.probe("runs_with_a_rotated_second_key", 1);
+        }
+        if plan.cfg.late_tenant {
+            sum.probe("runs_with_a_tenant_added_at_restart", 1);
         }
         if plan.steps.iter().any(|s| matches!(s, Step::Restart)) {
             sum.probe("runs_with_restart", 1);
